@@ -14,6 +14,7 @@ import (
 
 	xhttp2 "golang.org/x/net/http2"
 	"mosn.io/api"
+	"mosn.io/mosn/pkg/verifrt/vrt"
 	"mosn.io/pkg/buffer"
 )
 
@@ -25,9 +26,15 @@ type c18Conn struct {
 	writes  [][]byte
 	onWrite func(b []byte)
 	state   api.ConnState
+	// yield: every Write call is a scheduling point of the E1 scheduler (the real
+	// connection takes locks / hands the buffer to a write loop there)
+	yield bool
 }
 
 func (c *c18Conn) Write(bufs ...buffer.IoBuffer) error {
+	if c.yield {
+		vrt.Yield()
+	}
 	for _, b := range bufs {
 		cp := append([]byte(nil), b.Bytes()...)
 		c.writes = append(c.writes, cp)
